@@ -47,6 +47,29 @@ CHECKS = {
         'raise: only RecognitionError or yaml.YAMLError may leave load().',
         'Trusts: nothing beyond the Python exception type observed; nesting is bounded (<= 6).',
         'DESIGN.md 3 C08'),
+    'C03': (
+        'exhaustive enumeration of all inheritance DAGs up to 3/4 classes x documents x tags x ALL permutations of '
+        'registration order and Union members on the real load function, against a reference rule',
+        'Every rooted inheritance DAG with <= 3 (quick) / 4 (thorough) classes, every choice of added parameter, abstract '
+        'class and unregistered class, discriminating recognisers and enum/scalar unions; one document per subset of '
+        'parameter names x value kinds x every class tag and an unknown tag; for every permutation of registration '
+        'order and Union member order the outcome must be identical, equal to the reference most-derived/tag rule, and '
+        'no abstract or unregistered class may be instantiated (constructor log).',
+        'Trusts: the reference rule in mc/refsem.py (calibrations K3/K4 for tags); constructor logging of generated '
+        'classes. Hierarchies with more than 4 classes are not covered.',
+        'DESIGN.md 3 C03'),
+    'C15': (
+        'exhaustive enumeration of all attribute contents up to length 2/3 over 14 item shapes x transforms x options on '
+        'the real Node helpers, against a model written from the docstrings, plus inverse laws',
+        'For each of the four structural transforms, each value-attribute and strictness choice and every attribute '
+        'content (missing, each scalar kind, every sequence/mapping of <= 2/3 items over 14 item shapes) the real helper '
+        'is applied to a fresh node; inside the documented domain the result must be the documented shape and the '
+        'inverse transform must restore the input up to the position of the key attribute, outside it the node must be '
+        'unchanged; duplicates raise SeasoningError only in strict mode; the key-renaming helpers are checked on all '
+        'key tuples over 9 key spellings.',
+        'Trusts: the docstring model in mc/props/C15.py. Items lacking the key attribute or already holding it in the '
+        'map->seq direction are outside the documented domain (only the exception type is checked there).',
+        'DESIGN.md 3 C15'),
 }
 
 NOT_BUILT = {}
